@@ -105,5 +105,47 @@ def main_lookups():
     sys.exit(1 if fails else 0)
 
 
+def main_selection():
+    """short circuit with check_connectivity=False after machines were switched off: the in-service selection of this call is used"""
+    import pandapower.shortcircuit as sc
+    fails = []
+
+    def build(on):
+        net = pp.create_empty_network()
+        b0 = pp.create_bus(net, 110.); b1 = pp.create_bus(net, 20.); b2 = pp.create_bus(net, 20.)
+        pp.create_ext_grid(net, b0, s_sc_max_mva=1000., rx_max=0.1, s_sc_min_mva=800., rx_min=0.2)
+        pp.create_transformer_from_parameters(net, b0, b1, sn_mva=40., vn_hv_kv=110., vn_lv_kv=20., vk_percent=12., vkr_percent=0.5, pfe_kw=10., i0_percent=0.1)
+        pp.create_line_from_parameters(net, b1, b2, 5., 0.2, 0.35, 10., 0.4, endtemp_degree=80.)
+        pp.create_gen(net, b2, p_mw=5., vn_kv=21., sn_mva=25., xdss_pu=0.15, rdss_ohm=0.1, cos_phi=0.85, in_service=on)
+        pp.create_sgen(net, b1, p_mw=2., sn_mva=5., k=1.2, in_service=on)
+        return net
+    ref = build(False)
+    sc.calc_sc(ref, case="max")
+    net = build(True)
+    sc.calc_sc(net, case="max")
+    net.gen["in_service"] = False; net.sgen["in_service"] = False
+    try:
+        sc.calc_sc(net, case="max", check_connectivity=False)
+        d = np.abs(net.res_bus_sc.ikss_ka.values - ref.res_bus_sc.ikss_ka.values)
+        if d.max() > 1e-6:
+            k = int(np.argmax(d))
+            fails.append(f"calc_sc(check_connectivity=False) after gen and sgen were switched off: ikss at bus {k} = {net.res_bus_sc.ikss_ka.values[k]:.3f} kA, "
+                         f"the network in service gives {ref.res_bus_sc.ikss_ka.values[k]:.3f} kA")
+    except Exception as e:
+        fails.append(f"calc_sc(check_connectivity=False) on a used net: {type(e).__name__}: {str(e)[:80]}")
+    fresh = build(False)
+    try:
+        sc.calc_sc(fresh, case="max", check_connectivity=False)
+        if not np.allclose(fresh.res_bus_sc.ikss_ka.values, ref.res_bus_sc.ikss_ka.values, atol=1e-6):
+            fails.append("calc_sc(check_connectivity=False) on a fresh net differs from the default call")
+    except Exception as e:
+        fails.append(f"calc_sc(check_connectivity=False) on a fresh net: {type(e).__name__}: {str(e)[:80]}")
+    for x in fails:
+        print("REPRODUCED:", x)
+    if not fails:
+        print("not reproduced: used net objects give the results of fresh copies")
+    sys.exit(1 if fails else 0)
+
+
 if __name__ == "__main__":
     main()
